@@ -575,6 +575,35 @@ pub fn oracle_c09_c10(op: &str, outs: &[String], check_c09: bool, check_c10: boo
             return f;
         }
     }
+    // C09: the channels a JoinAccept's type-0 CFList defines are the ones in force afterwards — an
+    // in-band frequency defines channel J+n, a zero entry leaves it UNDEFINED (whatever an earlier
+    // session had there); judged from the history's own CFList in the snapshot that follows the join
+    if check_c09 && !is_fixed(region) {
+        for (i, (ev, out)) in evs.iter().zip(outs.iter()).enumerate() {
+            let w: Vec<&str> = ev.split_whitespace().collect();
+            if w.len() < 9 || !(w[0] == "rx1" || w[0] == "rx2") || w[3] != "j" || !out.contains("resp=JoinSuccess") {
+                continue;
+            }
+            let after = match snaps.get(i + 1).cloned().flatten() {
+                Some(s) => s,
+                None => continue,
+            };
+            if let Some(fs) = w[8].strip_prefix("d:") {
+                let n0 = num_default_channels(region);
+                for (k, f) in fs.split(',').enumerate() {
+                    let f: u32 = f.parse().unwrap_or(0);
+                    let got = after.chans.get(n0 + k).cloned().flatten();
+                    if f == 0 {
+                        if let Some(c) = got {
+                            return format!("FAIL:cflist-entry-{}-is-zero-but-channel-{}-stays-defined-at-{}", k, n0 + k, c.freq);
+                        }
+                    } else if in_band(region, f) && got.as_ref().map(|c| c.freq) != Some(f) {
+                        return format!("FAIL:cflist-frequency-{}-not-at-channel-{}", f, n0 + k);
+                    }
+                }
+            }
+        }
+    }
     if check_c10 {
         // the RX1 delay in force is the one the last accepted JoinAccept negotiated (RxDelay 0 and 1
         // both mean one second) until an accepted downlink may have changed it (RXTimingSetupReq):
